@@ -2,13 +2,16 @@
   Core E (part 4): the part of the universe the compiler-correctness theorem of Props/C12 covers,
   as decidable predicates (the driver reports for every case whether it lies inside).
 
-    `Sub T`     bool, integers, floats, string, json.Number, []byte, slices, arrays, pointers, maps with string
-                keys, structs whose field list the specification resolves and that do not put `,string` on a
-                string field (known deviation C03-string-opt-inner-literal)
-    `Conf T v`  `v` inhabits `T`, and no `omitempty` float field holds -0.0 (known deviation
-                C03-omitempty-negative-zero: the machine tests the bit pattern)
-    `need T`    the number of machine states a value of `T` can need (1 per pointer / slice / array / struct
-                level, 2 per map level)
+    `Sub T`        bool, integers, floats, string, json.Number, []byte, interface{}, slices, arrays, pointers, maps with
+                   string / integer keys, structs whose field list the specification resolves and that do not put
+                   `,string` on a string field (known deviation C03-string-opt-inner-literal), the named recursive
+                   struct types `Rec` and `Tree`
+    `Conf co T v`  `v` inhabits `T` (the dynamic type of every interface value is again in `Sub`), no `omitempty`
+                   float field holds -0.0 (known deviation C03-omitempty-negative-zero: the machine tests the bit
+                   pattern), and under the compile option EncOnlyOmitNull every `omitempty` field is nil or not empty
+                   (the option changes the meaning of `omitempty`; on such values it does not show)
+    `needV T v`    the number of machine states the VALUE needs (1 per non-nil pointer / non-nil slice / array /
+                   struct level, 2 per non-empty map level, the dynamic value of an interface counted through)
 -/
 import SonicSpec.Model.IrExec
 namespace SonicSpec.Ir
@@ -24,12 +27,18 @@ def subK : List (Option Field) → Bool
   | none :: r => subK r
   | some f :: r => !(f.quoted && strLike f.typ) && subK r
 
+/-- map key kinds on which the machine and the specification agree -/
+def keySub : GoType → Bool
+  | .str | .int _ | .uint _ => true
+  | _ => false
+
 mutual
 def Sub : GoType → Bool
-  | .bool | .int _ | .uint _ | .f32 | .f64 | .str | .num | .bytes => true
+  | .bool | .int _ | .uint _ | .f32 | .f64 | .str | .num | .bytes | .any => true
   | .sl t | .arr _ t | .ptr t => Sub t
-  | .map k t => isStrT k && Sub t
+  | .map k t => keySub k && Sub t
   | .st fs => (match keepList fs with | some ks => subK ks | none => false) && SubF fs
+  | .lib n => libNames.contains n
   | _ => false
 def SubF : List (String × Option Bytes × GoType) → Bool
   | [] => true
@@ -41,8 +50,17 @@ def negZero : GoVal → Bool
   | .f32 b => b == 0x80000000
   | _ => false
 
+def isNilV : GoVal → Bool
+  | .nil => true
+  | _ => false
+
+/-- the field's `omitempty` decision does not depend on EncOnlyOmitNull: where the option compiles a nil test the value
+    is nil or not empty, where it compiles no test the value is not empty -/
+def omitNullOK (co : COpts) (f : Field) (t : GoType) (v : GoVal) : Bool :=
+  !co.encOnlyOmitNull || !f.omitEmpty || skipField f t || (isEmptyV t v == ((nilTest t).isSome && isNilV v))
+
 mutual
-def Conf : GoType → GoVal → Bool
+def Conf (co : COpts) : GoType → GoVal → Bool
   | .bool, .bool _ => true
   | .int _, .int _ => true
   | .uint _, .uint _ => true
@@ -52,41 +70,63 @@ def Conf : GoType → GoVal → Bool
   | .num, .num _ => true
   | .bytes, .nil => true
   | .bytes, .bytes _ => true
+  | .any, .nil => true
+  | .any, .any T w => Sub T && Conf co T w
   | .sl _, .nil => true
-  | .sl t, .sl xs => ConfL t xs
-  | .arr n t, .arr xs => xs.length == n && ConfL t xs
+  | .sl t, .sl xs => ConfL co t xs
+  | .arr n t, .arr xs => xs.length == n && ConfL co t xs
   | .ptr _, .nil => true
-  | .ptr t, .ptr v => Conf t v
+  | .ptr t, .ptr v => Conf co t v
   | .map _ _, .nil => true
-  | .map k t, .map kvs => ConfM k t kvs
+  | .map k t, .map kvs => ConfM co k t kvs
   | .st fs, .st vs =>
     match keepList fs with
-    | some ks => ConfF fs ks vs
+    | some ks => ConfF co fs ks vs
+    | none => false
+  | .lib n, .st vs =>
+    match libStruct n with
+    | some fs =>
+      match keepList fs with
+      | some ks => ConfF co fs ks vs
+      | none => false
     | none => false
   | _, _ => false
-def ConfL (t : GoType) : List GoVal → Bool
+def ConfL (co : COpts) (t : GoType) : List GoVal → Bool
   | [] => true
-  | v :: r => Conf t v && ConfL t r
-def ConfM (k t : GoType) : List (GoVal × GoVal) → Bool
+  | v :: r => Conf co t v && ConfL co t r
+def ConfM (co : COpts) (k t : GoType) : List (GoVal × GoVal) → Bool
   | [] => true
-  | (a, b) :: r => Conf k a && Conf t b && ConfM k t r
-def ConfF : List (String × Option Bytes × GoType) → List (Option Field) → List GoVal → Bool
+  | (a, b) :: r => Conf co k a && Conf co t b && ConfM co k t r
+def ConfF (co : COpts) : List (String × Option Bytes × GoType) → List (Option Field) → List GoVal → Bool
   | (_, _, t) :: fs, k :: ks, v :: vs =>
-    Conf t v && (match k with | some f => !(f.omitEmpty && negZero v) | none => true) && ConfF fs ks vs
+    Conf co t v && (match k with | some f => !(f.omitEmpty && negZero v) && omitNullOK co f t v | none => true) && ConfF co fs ks vs
   | [], [], [] => true
   | _, _, _ => false
 end
 
 mutual
-def need : GoType → Nat
-  | .sl t => if isU8 t then 0 else need t + 1
-  | .arr _ t | .ptr t => need t + 1
-  | .map _ t => need t + 2
-  | .st fs => needF fs + 1
-  | _ => 0
-def needF : List (String × Option Bytes × GoType) → Nat
+/-- the state-stack need of a value -/
+def needV : GoType → GoVal → Nat
+  | .any, .any T w => needV T w
+  | .sl t, .sl xs => if isU8 t then 0 else needL t xs + 1
+  | .arr _ t, .arr xs => needL t xs + 1
+  | .ptr t, .ptr v => needV t v + 1
+  | .map _ t, .map kvs => if kvs.isEmpty then 0 else needM t kvs + 2
+  | .st fs, .st vs => needF fs vs + 1
+  | .lib n, .st vs =>
+    match libStruct n with
+    | some fs => needF fs vs + 1
+    | none => 0
+  | _, _ => 0
+def needL (t : GoType) : List GoVal → Nat
   | [] => 0
-  | (_, _, t) :: r => max (need t) (needF r)
+  | v :: r => max (needV t v) (needL t r)
+def needM (t : GoType) : List (GoVal × GoVal) → Nat
+  | [] => 0
+  | (_, b) :: r => max (needV t b) (needM t r)
+def needF : List (String × Option Bytes × GoType) → List GoVal → Nat
+  | (_, _, t) :: fs, v :: vs => max (needV t v) (needF fs vs)
+  | _, _ => 0
 end
 
 end SonicSpec.Ir
